@@ -710,6 +710,12 @@ pub fn handle_xreadgroup(storage: &Arc<StorageEngine>, db: usize, parts: &[RespF
             }
         };
         
+        // An explicit ID equal to the largest possible ID is not ">" (whose internal marker it
+        // shares): there is no history after it
+        if after_id == StreamId::max() && id_str != ">" {
+            continue;
+        }
+        
         // Read entries for the group
         match stream.read_group(&group_name, &consumer_name, after_id, count, noack) {
             Ok(entries) if !entries.is_empty() => {
